@@ -9,6 +9,7 @@ CONSTANTS
   Ops = {"create", "mtagauto", "createfault", "attr", "link", "delete"}
   Faults = {"DuplicateName", "BadName", "NoneType", "WrongKind", "ForeignBlock", "NotMember", "Required", "NotFound"}
   Script <- Script_Links
+  CopyKeep = {}
 VIEW View
 INVARIANT TypeOK
 INVARIANT NameUnique
